@@ -122,4 +122,44 @@ Proof.
     rewrite Ew, Etr. apply W2; assumption.
 Qed.
 
+(* the one-step law at every loop head of every run, in the specification's own terms: the
+   selection is a probability distribution over the enabled (transition, actor) pairs, each
+   listed once, with mass rate * (the specification's weight of the actor) / total rate *)
+Theorem simple_exec_law : forall ic rstat tmin tmax full sortable spont induced fuel ds out tr,
+  Forall (sp_tr_ok g) spont -> Forall (in_tr_ok g) induced ->
+  exec (simple g sortable spont induced ic rstat tmin tmax full fuel) ds [] = (Ok out, tr) ->
+  exists sp inn l1 l2 t' s',
+    tr = l1 ++ l2 /\ srun g rstat tmax full tmin (start g ic rstat tmin sp inn) l1 t' s' /\
+    finish g ic rstat tmin full s' = Ok out /\
+    forall l t s, srun g rstat tmax full tmin (start g ic rstat tmin sp inn) l t s -> 0 < total_rate s ->
+      SInv g s /\ mass (law (select s)) == 1 /\ NoDup (map fst (law (select s))) /\
+      forall i a q, In ((i, a), q) (law (select s)) ->
+        exists sl, nth_error (slots s) i = Some sl /\ sabs sl a <> None /\
+          q == tr_rate (sl_tr sl) * spec_weight g (negb (Nat.ltb i (length (s_sp s)))) (sl_tr sl) a / total_rate s.
+Proof.
+  intros ic rstat tmin tmax full sortable spont induced fuel ds out tr Hsp Hin H.
+  destruct (simple_setup_inv g Hg sortable spont induced ic rstat tmin tmax full fuel Hsp Hin)
+    as [sp [inn [Eq [HI [HR [E1 [E2 [W1 W2]]]]]]]].
+  rewrite Eq in H. apply exec_reacht in H. destruct H as [l [Et Hr]]. cbn [rev app] in Et. subst l.
+  destruct (loop_reacht g Hg ic rstat tmin tmax full fuel tmin _ tr out HI Hr) as [l1 [l2 [t' [s' [El [Hrun [_ Hfin]]]]]]].
+  exists sp, inn, l1, l2, t', s'. split; [exact El|]. split; [exact Hrun|]. split; [exact Hfin|].
+  intros l t s Hs Hpos.
+  destruct (srun_inv g Hg rstat tmax full tmin _ l t s Hs HI HR) as [HIs _].
+  destruct (srun_frames rstat tmax full tmin _ l t s Hs HI HR) as [F1 F2]. cbn [start s_sp s_in] in F1, F2.
+  split; [exact HIs|]. split; [apply (select_mass_one g s HIs Hpos)|]. split; [apply (select_law_nodup g s HIs)|].
+  intros i a q Hin'.
+  destruct (select_law_sound g s i a q HIs Hpos Hin') as [sl [Hn [Ha Hq]]].
+  exists sl. split; [exact Hn|]. split; [exact Ha|]. rewrite Hq.
+  assert (Ew : wgt sl a = spec_weight g (negb (Nat.ltb i (length (s_sp s)))) (sl_tr sl) a); [|rewrite Ew; reflexivity].
+  unfold slots in Hn. destruct (Nat.ltb_spec i (length (s_sp s))) as [Hi|Hi]; cbn [negb].
+  - pose proof (nth_error_app_l _ _ _ _ Hi Hn) as Hsl.
+    pose proof (si_sp g s HIs) as HF. rewrite Forall_forall in HF. destruct (HF sl Hsl) as [_ [_ Hag]].
+    destruct (sp_spec_some g (s_stat s) sl a (oQeq_not_none _ _ (Hag a) Ha)) as [u [Ea [Hu _]]]. subst a.
+    destruct (frames_wgt _ _ F1 sl Hsl) as [sl0 [H0 [Etr Ew]]]. rewrite Ew, Etr. apply W1; assumption.
+  - pose proof (nth_error_app_r _ _ _ _ Hi Hn) as Hsl.
+    pose proof (si_in g s HIs) as HF. rewrite Forall_forall in HF. destruct (HF sl Hsl) as [_ [_ Hag]].
+    destruct (in_spec_some g (s_stat s) sl a (oQeq_not_none _ _ (Hag a) Ha)) as [u [v [Ea [Hu [Hv _]]]]]. subst a.
+    destruct (frames_wgt _ _ F2 sl Hsl) as [sl0 [H0 [Etr Ew]]]. rewrite Ew, Etr. apply W2; assumption.
+Qed.
+
 End W.
